@@ -12,6 +12,7 @@ import (
 	"strconv"
 	"strings"
 	"sync"
+	"sync/atomic"
 	"time"
 
 	"github.com/metal-toolbox/audito-maldito/internal/common"
@@ -30,6 +31,31 @@ type concCase struct {
 	Order   []int   `json:"order_of_others"` // threads run while the victim is paused
 	Debug   bool    `json:"debug_logging,omitempty"`
 	Chain   []int   `json:"chain,omitempty"` // [a, b]: thread b is the continuation of thread a (same goroutine in the daemon): b's calls come after all of a's
+	// Seq, when present, makes the case a plain SEQUENTIAL execution: one goroutine performs the threads' calls in this
+	// order (thread index per call).  Used as the replay of a reference run that did not return.
+	Seq []int `json:"sequential_order,omitempty"`
+}
+
+// concBound: how long a concurrent case may take after the last intended pause before it counts as stuck
+func concBound() time.Duration { return hutil.CallBound() }
+
+// the watchdog of the sequential reference runs (driven by one goroutine); set by concMain / replayConc
+var concSeqWatchdog *hutil.Watchdog
+
+type seqRunCtx struct {
+	threads [][]HOp
+	order   []int
+	debug   bool
+}
+
+func describeSeqHang(ctx any, call int, waited time.Duration) (concCase, string) {
+	x, _ := ctx.(*seqRunCtx)
+	if x == nil {
+		return concCase{}, fmt.Sprintf("deadlock: a correlator call did not return within %v", waited.Round(time.Second))
+	}
+	cc := concCase{Threads: x.threads, Seq: x.order, Debug: x.debug}
+	return cc, fmt.Sprintf("deadlock: call did not return within %v: call %d of the SEQUENTIAL execution %v (thread index per call) of %s; log level %s",
+		waited.Round(time.Second), call, x.order, opsString(x.threads), logLevelOf(x.debug))
 }
 
 type concOutcome struct {
@@ -194,11 +220,17 @@ func sequentialOutcomes(threads [][]HOp, chain []int, pre ...int) (map[string]bo
 		c := newConcRunner(threads)
 		idx := make([]int, len(threads))
 		results := make([][]string, len(threads))
-		for _, t := range il {
-			results[t] = append(results[t], c.do(threads[t][idx[t]]))
+		concSeqWatchdog.Context(&seqRunCtx{threads: threads, order: il})
+		for k, t := range il {
+			concSeqWatchdog.Enter(k, &phaseCall)
+			r := c.do(threads[t][idx[t]])
+			concSeqWatchdog.Leave()
+			results[t] = append(results[t], r)
 			idx[t]++
 		}
+		concSeqWatchdog.Enter(len(il), &phaseDump)
 		o, err := c.outcome(results)
+		concSeqWatchdog.Leave()
 		if err != nil {
 			return nil, err
 		}
@@ -214,10 +246,10 @@ type concResult struct {
 	Units          []int       `json:"units_first_thread"`
 	Trace          []string    `json:"victim_lock_trace"`
 	Hung           bool        `json:"hung"`
+	HungWhat       string      `json:"hung_what,omitempty"`
 }
 
 func runConc(cc concCase) (concResult, error) {
-	var res concResult
 	c := newConcRunner(cc.Threads, cc.Debug)
 	ctl := hutil.NewCtl()
 	sm, pm := sessiontracker.VerifMaps(c.r.tr)
@@ -227,53 +259,74 @@ func runConc(cc concCase) (concResult, error) {
 	common.VerifHook = ctl.Hook
 	defer func() { common.VerifHook = nil }()
 	results := make([][]string, len(cc.Threads))
+	// per thread: 1 + index of the call in flight, 0 = not started, -1 = finished (read by the watchdog below)
+	inCall := make([]atomic.Int64, len(cc.Threads))
 	runThread := func(t int) {
-		for _, o := range cc.Threads[t] {
+		for i, o := range cc.Threads[t] {
+			inCall[t].Store(int64(i) + 1)
 			results[t] = append(results[t], c.do(o))
 		}
+		inCall[t].Store(-1)
 	}
-	for _, t := range cc.Pre {
-		runThread(t)
-	}
-	ctl.ResetTrace()
-	res.Paused = ctl.StartVictim(func() { runThread(cc.Victim) }, cc.K)
-	var waits []func()
-	// a continuation thread runs in the goroutine of its first part when both run during the pause
-	inOrder := func(x int) bool {
-		for _, t := range cc.Order {
-			if t == x {
-				return true
-			}
-		}
-		return false
-	}
-	var units [][]int
-	for _, t := range cc.Order {
-		if len(cc.Chain) == 2 && t == cc.Chain[1] && inOrder(cc.Chain[0]) {
-			continue
-		}
-		u := []int{t}
-		if len(cc.Chain) == 2 && t == cc.Chain[0] && inOrder(cc.Chain[1]) {
-			u = append(u, cc.Chain[1])
-		}
-		units = append(units, u)
-	}
-	if res.Paused {
-		for _, u := range units {
-			u := u
-			done, wait := hutil.RunTimeout(func() {
-				for _, t := range u {
-					runThread(t)
+	// the whole case runs in a goroutine of its own, under a watchdog: the only intended waits are the 25 ms the
+	// other threads get while the victim is paused ("paused on purpose": they are expected to block on the
+	// correlator's mutex); everything else is in-memory work.  A case that has not completed a generous bound after
+	// that is stuck: some call does not return.
+	var res concResult
+	body := func() {
+		if len(cc.Seq) > 0 {
+			idx := make([]int, len(cc.Threads))
+			for _, t := range cc.Seq {
+				if t < 0 || t >= len(cc.Threads) || idx[t] >= len(cc.Threads[t]) {
+					continue
 				}
-			}, 25*time.Millisecond)
-			res.OthersFinished = append(res.OthersFinished, done)
-			res.Units = append(res.Units, u[0])
-			waits = append(waits, wait)
+				inCall[t].Store(int64(idx[t]) + 1)
+				results[t] = append(results[t], c.do(cc.Threads[t][idx[t]]))
+				idx[t]++
+				inCall[t].Store(0)
+			}
+			return
 		}
-		ctl.Resume()
-	}
-	fin := make(chan struct{})
-	go func() {
+		for _, t := range cc.Pre {
+			runThread(t)
+		}
+		ctl.ResetTrace()
+		res.Paused = ctl.StartVictim(func() { runThread(cc.Victim) }, cc.K)
+		var waits []func()
+		// a continuation thread runs in the goroutine of its first part when both run during the pause
+		inOrder := func(x int) bool {
+			for _, t := range cc.Order {
+				if t == x {
+					return true
+				}
+			}
+			return false
+		}
+		var units [][]int
+		for _, t := range cc.Order {
+			if len(cc.Chain) == 2 && t == cc.Chain[1] && inOrder(cc.Chain[0]) {
+				continue
+			}
+			u := []int{t}
+			if len(cc.Chain) == 2 && t == cc.Chain[0] && inOrder(cc.Chain[1]) {
+				u = append(u, cc.Chain[1])
+			}
+			units = append(units, u)
+		}
+		if res.Paused {
+			for _, u := range units {
+				u := u
+				done, wait := hutil.RunTimeout(func() {
+					for _, t := range u {
+						runThread(t)
+					}
+				}, 25*time.Millisecond)
+				res.OthersFinished = append(res.OthersFinished, done)
+				res.Units = append(res.Units, u[0])
+				waits = append(waits, wait)
+			}
+			ctl.Resume()
+		}
 		ctl.WaitVictim()
 		for _, w := range waits {
 			w()
@@ -283,13 +336,32 @@ func runConc(cc concCase) (concResult, error) {
 				runThread(t)
 			}
 		}
-		close(fin)
+	}
+	fin := make(chan struct{})
+	go func() {
+		defer close(fin)
+		body()
 	}()
+	bound := concBound() + time.Duration(len(cc.Order))*25*time.Millisecond
 	select {
 	case <-fin:
-	case <-time.After(5 * time.Second):
-		res.Hung = true
-		return res, nil
+	case <-time.After(bound):
+		// nothing written by the case's goroutines is read here (they are still running): only the atomics
+		var stuck []string
+		for t := range cc.Threads {
+			if k := inCall[t].Load(); k > 0 && int(k) <= len(cc.Threads[t]) {
+				stuck = append(stuck, fmt.Sprintf("T%d in its call %d, %s", t, k-1, cc.Threads[t][k-1].String()))
+			}
+		}
+		var tr []string
+		for _, e := range ctl.ResetTrace() {
+			tr = append(tr, e.Obj+"."+e.Op)
+		}
+		if len(tr) > 12 {
+			tr = tr[len(tr)-12:]
+		}
+		return concResult{Hung: true, HungWhat: fmt.Sprintf("deadlock: call did not return within %v: %s (last lock points reached: %v); log level %s",
+			bound.Round(time.Second), strings.Join(stuck, "; "), tr, logLevelOf(cc.Debug))}, nil
 	}
 	for _, e := range ctl.ResetTrace() {
 		res.Trace = append(res.Trace, e.Obj+"."+e.Op)
@@ -298,6 +370,14 @@ func runConc(cc concCase) (concResult, error) {
 	o, err := c.outcome(results)
 	res.Outcome = o
 	return res, err
+}
+
+// describeConc: the schedule in words
+func describeConc(cc concCase) string {
+	if len(cc.Seq) > 0 {
+		return fmt.Sprintf("%s - executed sequentially in the order %v (thread index per call)", opsString(cc.Threads), cc.Seq)
+	}
+	return fmt.Sprintf("%s - T%v run first, then victim T%d is paused before its hook %d while T%v run, then resumed", opsString(cc.Threads), cc.Pre, cc.Victim, cc.K, cc.Order)
 }
 
 // small concurrent programs over one or two sessions
@@ -353,6 +433,32 @@ func genConcPrograms(r *hutil.Rand) ([][]HOp, []int) {
 		threads = append(threads, []HOp{g.ev("8", "LOGIN", "999"), g.ev("8", hutil.Pick(r, otherTypes), "5")})
 	}
 	return threads, nil
+}
+
+// decorateThreads gives the records of a concurrent program serials, timestamps and related fields (fields.go), from a
+// generator of its own; the serial policy runs along the threads one after the other (any assignment is as good as
+// another: the order in which the records are processed is what the schedule decides).
+func decorateThreads(r *hutil.Rand, threads [][]HOp) {
+	var flat []HOp
+	plans := map[string]SessPlan{}
+	for _, t := range threads {
+		for _, o := range t {
+			if o.Kind == "audit" && o.Event.Type == "LOGIN" {
+				if p, err := strconv.Atoi(o.Event.PIDText); err == nil {
+					plans[o.Event.Ses] = SessPlan{Sid: o.Event.Ses, PID: p}
+				}
+			}
+		}
+		flat = append(flat, t...)
+	}
+	decorate(r, flat, plans)
+	k := 0
+	for i := range threads {
+		for j := range threads[i] {
+			threads[i][j] = flat[k]
+			k++
+		}
+	}
 }
 
 func opsString(threads [][]HOp) string {
@@ -491,11 +597,11 @@ func concPropertyOracles(threads [][]HOp, chain []int, o concOutcome) []concFail
 func concKeyWanted(prop, key string) bool {
 	switch prop {
 	case "C01":
-		return key == "conc:identity"
+		return key == "conc:identity" || key == "conc:deadlock"
 	case "C02":
-		return key == "conc:once-in-order" || key == "conc:crash"
+		return key == "conc:once-in-order" || key == "conc:crash" || key == "conc:deadlock"
 	case "C04":
-		return key == "conc:silence"
+		return key == "conc:silence" || key == "conc:deadlock"
 	}
 	return true // C03: everything
 }
@@ -511,10 +617,25 @@ func concMain(out string, n int, seed uint64, prop string) {
 			"C03: the outcome (events per session in order, with identities; final state; results) must equal the outcome of some sequential interleaving executed on the same implementation; "+
 			"C01/C02/C04 stages: identity / once-in-order / silence oracles on the final outcome, computed from the program alone; non-trivial = the victim was paused inside a call; distinct by (program, victim, k, order)")
 	os.MkdirAll(out, 0o755)
+	// a call that does not return ends the exploration: the failure is recorded with the schedule as replay, the
+	// summary written, and this (poisoned) child process exits
+	stopAfterHang := func(what string, cc concCase) {
+		sum.FailKey("oracle", "conc:deadlock", what, map[string]any{"conc": cc})
+		sum.Notes = append(sum.Notes, "the exploration was cut short: a correlator call did not return (process poisoned)")
+		os.Remove(inflightPath(out))
+		sum.CaseFiles = nil
+		sum.Write(out)
+		os.Exit(0)
+	}
+	concSeqWatchdog = hutil.NewWatchdog(func(ctx any, call int, phase string, waited time.Duration) {
+		cc, what := describeSeqHang(ctx, call, waited)
+		stopAfterHang(what, cc)
+	})
 	progs := 0
 	for progs < n {
 		threads, chain := genConcPrograms(r)
 		progs++
+		decorateThreads(hutil.NewRand(seed^0xC03F1E1D^uint64(progs)*0x9E3779B97F4A7C15), threads)
 		seqSet, err := sequentialOutcomes(threads, chain)
 		if err != nil {
 			sum.Fail("harness", "cannot interpret sequential run: "+err.Error(), threads)
@@ -584,9 +705,7 @@ func concMain(out string, n int, seed uint64, prop string) {
 							continue
 						}
 						if res.Hung {
-							sum.FailKey("oracle", "conc:deadlock", "deliveries did not complete within 5 s (deadlock): "+opsString(threads),
-								map[string]any{"conc": cc})
-							continue
+							stopAfterHang(res.HungWhat+" - schedule: "+describeConc(cc), cc)
 						}
 						if !res.Paused {
 							break
@@ -737,6 +856,25 @@ func replayConcParent() int {
 }
 
 func replayConc(cc concCase, prop string) int {
+	concSeqWatchdog = hutil.NewWatchdog(func(ctx any, call int, phase string, waited time.Duration) {
+		_, what := describeSeqHang(ctx, call, waited)
+		fmt.Println("REPRODUCED conc:deadlock:", what)
+		os.Exit(1)
+	})
+	if len(cc.Seq) > 0 {
+		// a sequential execution that did not return
+		res, err := runConc(cc)
+		if err != nil {
+			fmt.Println("harness error:", err)
+			return 2
+		}
+		if res.Hung {
+			fmt.Println("REPRODUCED conc:deadlock:", res.HungWhat)
+			return 1
+		}
+		fmt.Println("not reproduced")
+		return 0
+	}
 	seqSet, err := sequentialOutcomes(cc.Threads, cc.Chain, cc.Pre...)
 	if err != nil {
 		fmt.Println("harness error:", err)
@@ -751,7 +889,7 @@ func replayConc(cc concCase, prop string) int {
 			return 2
 		}
 		if res.Hung {
-			fmt.Println("REPRODUCED conc:deadlock")
+			fmt.Println("REPRODUCED conc:deadlock:", res.HungWhat)
 			return 1
 		}
 		if !seqSet[res.Outcome.key()] && concKeyWanted(prop, "conc:not-linearizable") {
